@@ -184,29 +184,53 @@ def run(tier):
            "every Data record's effective address equals the chunk's position in the image for all accepted chunk indices (images up to %d bytes and beyond)" % limit if not addr_bad and ndata else
            (addr_bad[0][0] if addr_bad else "no Data record found on any path"), detail=addr_bad[0][1] if addr_bad else None,
            sample={"record lists": [list(s) for s in sorted(seen_shapes)], "limit": limit})
-    # ---- sibling agreement of the two writers
+    # ---- sibling agreement of the two writers (each seen with the local helpers it uses: analysis/writers.py)
+    import writers as W
     for w, field in (("writer::write_code_hex", "code"), ("writer::write_eeprom_hex", "eeprom")):
-        wb = P.body.get(w)
-        if wb is None:
+        if w not in P.body:
             rep.unprovable("C07.writer|%s" % w, "%s not found" % w)
             continue
+        fam = W.family(P, w)
         gr = [f["name"] for f in P.lib.adts["writer::GenerateResult"]["variants"][0]["fields"]]
-        wr = [(bb, t) for bb, t, n, tg in P.call_sites(w) if MU.callee_names(t)[1] == "std::io::Write::write_all"]
+        wr = W.calls_in(P, fam, lambda rp, full: W.is_write_all(rp))
         if not wr:
-            rep.unprovable("C07.writer|%s|write" % w, "no write_all in %s" % w)
+            rep.unprovable("C07.writer|%s|write" % w, "no write_all in %s or the helpers it calls" % w)
             continue
-        locs, consts, calls, places = MU.backward_slice(wb, [wr[0][1]["args"][1]])
         fields = set()
-        for pl in places:
-            if P.tys(w, wb["locals"][pl["local"]]["ty"]).endswith("writer::GenerateResult"):
-                fs = MU.proj_fields(pl["proj"])
-                if fs:
-                    fields.add(gr[fs[-1]])
+        strs = []
+        callnames = []
+        for k_, bb_, t_, rp_ in wr:
+            consts, calls, places = W.slice_family(P, fam, k_, [t_["args"][1]])
+            for fk, pl in places:
+                if P.tys(fk, P.body[fk]["locals"][pl["local"]]["ty"]).endswith("writer::GenerateResult"):
+                    fs = MU.proj_fields(pl["proj"])
+                    if fs:
+                        fields.add(gr[fs[-1]])
+            strs += [c.get("str") for c in consts if "str" in c]
+            callnames += [MU.callee_names(c)[1] for fk, c in calls]
         rep.ob("C07.writer|%s|field" % field, fields == {field}, "%s writes the text generated from the %s image" % (w.split("::")[-1], field) if fields == {field} else
                "%s writes %s" % (w.split("::")[-1], sorted(fields)))
-        strs = [c.get("str") for c in consts if "str" in c]
-        crlf = "\n" in strs and "\r\n" in strs and any(MU.callee_names(c)[1].endswith("::replace") for c in calls)
+        crlf = "\n" in strs and "\r\n" in strs and any(n.endswith("::replace") for n in callnames)
         rep.ob("C07.writer|%s|crlf" % field, crlf, "line ends are converted LF -> CRLF" if crlf else "no LF -> CRLF conversion found in %s" % w)
+        # the file holds nothing but this run's records: it is created or truncated when opened
+        ops = W.calls_in(P, fam, lambda rp, full: bool(W.OPENERS.match(rp)))
+        fresh = bool(ops)
+        whyf = ""
+        for k_, bb_, t_, rp_ in ops:
+            if rp_ in ("std::fs::File::create", "std::fs::File::create_new"):
+                continue
+            if rp_ == "std::fs::OpenOptions::open":
+                consts, calls, places = W.slice_family(P, fam, k_, [t_["args"][0]])
+                tr = [c for fk, c in calls if MU.callee_names(c)[1] in ("std::fs::OpenOptions::truncate", "std::fs::OpenOptions::create_new")]
+                if any(len(c["args"]) > 1 and c["args"][1].get("const", {}).get("int") == "1" for c in tr):
+                    continue
+                fresh = False
+                whyf = "OpenOptions::open without truncate(true)"
+            else:
+                fresh = False
+                whyf = rp_
+        rep.ob("C07.writer|%s|fresh-file" % field, fresh, "the output file is created empty or truncated when opened (File::create): it holds only this run's records" if fresh else
+               "the output file is opened with %s: what an older, longer file held stays behind the new records" % (whyf or "no recognised opener"))
     gk = "writer::generate_hex"
     gb = P.body.get(gk)
     if gb is not None:
